@@ -1,6 +1,7 @@
 import McpModel.Paginate.Lemmas
 import McpModel.Paginate.IterLemmas
 import McpModel.Paginate.Bridge
+import McpModel.Paginate.ForeignLemmas
 import McpModel.Generated.PaginateGen
 /-!
 # C17 — property theorems for keyset pagination (model: `Paginate.paginate`, `trav`, `pull`)
@@ -170,6 +171,77 @@ theorem iterator_on_server (cod : Codec κ C) (p : Nat) (hist : List (List (Mut 
   rw [e] at this
   exact this
 
+/-- **issued_cursor_accepted.** Whatever the registered names are (the key type is arbitrary: any
+length, any bytes): when a list request on a reachable state answers with a non-empty `NextCursor`,
+that cursor decodes — by the server's own `dec` — to the key of the last entry of the page, and no
+later request carrying it (any reachable state, any page size ≥ 1: the entry may have been removed,
+the set emptied) is refused as invalid params or crashes.  A traversal can therefore never die on a
+cursor the server handed out itself. -/
+theorem issued_cursor_accepted (cod : Codec κ C) (p : Nat) (hp : 1 ≤ p) (s : FS κ ν) (h : WF s) (cur : C)
+    (items : List (κ × ν)) (next : C)
+    (hres : (paginate cod p s cur).2 = .page items next) (hn : next ≠ cod.nil) :
+    (∃ l, items.getLast? = some l ∧ cod.dec next = some l.1) ∧
+    ∀ (p' : Nat), 1 ≤ p' → ∀ (s' : FS κ ν), WF s' →
+      (paginate cod p' s' next).2 ≠ .invalidParams ∧ (paginate cod p' s' next).2 ≠ .panic := by
+  obtain ⟨_, hinv, hpage⟩ := any_cursor_total cod p hp s h cur
+  have hdec : ∃ l, items.getLast? = some l ∧ cod.dec next = some l.1 := by
+    by_cases hbad : cur ≠ cod.nil ∧ cod.dec cur = none
+    · have := hinv.2 hbad
+      rw [this] at hres; cases hres
+    · have hp' := hpage hbad
+      rw [hp'] at hres
+      injection hres with hi hx
+      subst hi
+      unfold nextOf at hx
+      split at hx
+      · exact absurd hx.symm hn
+      · split at hx
+        · rename_i l hl
+          exact ⟨l, hl, by rw [← hx]; exact cod.dec_enc _⟩
+        · exact absurd hx.symm hn
+  refine ⟨hdec, ?_⟩
+  intro p' hp' s' h'
+  obtain ⟨l, _, hd⟩ := hdec
+  obtain ⟨hnp, hinv', _⟩ := any_cursor_total cod p' hp' s' h' next
+  refine ⟨?_, hnp⟩
+  intro e
+  have := (hinv'.1 e).2
+  rw [hd] at this; cases this
+
+/-- **iterator_through_filter.** `ClientSession.ListTools` drops, page by page, the tools rejected by
+`filterValidTools` (`filterOracle keep`); `NextCursor` is left alone.  Against any server `o` and
+from any start cursor: if manual paging of the *unfiltered* listing ends within `f` requests, the
+`Tools` iterator hands out exactly the kept entries of the whole listing, in order, and ends the
+same way — in particular a page on which every entry is dropped (which reaches the iterator empty,
+with a cursor) does not end the iteration. -/
+theorem iterator_through_filter (nil : C) (keep : κ × ν → Bool) (o : Nat → C → Res κ ν C) (f : Nat) (cur : C)
+    (hend : (manual nil o f 0 cur).2 ≠ .running) :
+    ∃ steps, drain nil (filterOracle keep o) steps (Iter.start cur) =
+      ((manual nil o f 0 cur).1.flatten.filter keep, (manual nil o f 0 cur).2) := by
+  have e := manual_filter nil keep o f 0 cur
+  have := iterator_equals_manual_paging nil (filterOracle keep o) f cur (by rw [e]; exact hend)
+  rw [e, flatten_map_filter] at this
+  exact this
+
+/-- **iterator_yields_whole_listing.** A foreign server may cut its listing into pages any way it
+likes — empty pages at the start, in the middle, several in a row, at the end (`pagesOracle`; the
+cursor is the only end-of-list signal).  For every such cut: manual paging receives exactly these
+pages and ends normally; the iterator hands out every entry of every page, in order, and ends
+normally; and so does the filtering iterator for the kept entries. -/
+theorem iterator_yields_whole_listing (pages : List (List (κ × ν))) (hne : pages ≠ []) (keep : κ × ν → Bool) :
+    manual 0 (pagesOracle pages) pages.length 0 0 = (pages, .done) ∧
+    (∃ steps, drain 0 (pagesOracle pages) steps (Iter.start 0) = (pages.flatten, .done)) ∧
+    (∃ steps, drain 0 (filterOracle keep (pagesOracle pages)) steps (Iter.start 0) =
+      (pages.flatten.filter keep, .done)) := by
+  have hlen : 0 < pages.length := List.length_pos_iff.mpr hne
+  have hm := manual_pagesOracle pages pages.length 0 0 hlen (by omega)
+  rw [List.drop_zero] at hm
+  refine ⟨hm, ?_, ?_⟩
+  · have := iterator_equals_manual_paging 0 (pagesOracle pages) pages.length 0 (by rw [hm]; intro e; cases e)
+    rw [hm] at this; exact this
+  · have := iterator_through_filter 0 keep (pagesOracle pages) pages.length 0 (by rw [hm]; intro e; cases e)
+    rw [hm] at this; exact this
+
 /-! ### Non-vacuity -/
 
 instance : KOrd Nat where
@@ -196,5 +268,18 @@ above it): the stable keys 2,3,5 come exactly once; the late key 0 is missed, th
 example : (trav natCodec 2 [[.remove [1], .add [(0, 0), (4, 40)]], [], []]
     ((FS.empty : FS Nat Nat).add [(5, 50), (1, 10), (3, 30), (2, 20)]) 0).pages
     = [[(1, 10), (2, 20)], [(3, 30), (4, 40)], [(5, 50)]] := by decide
+
+/-- A foreign listing `[a b] / [] / [c] / [d]`: the iterator walks past the empty page. -/
+example : drain 0 (pagesOracle [[(1, 10), (2, 20)], [], [(3, 30)], [(4, 40)]]) 8 (Iter.start 0)
+    = ([(1, 10), (2, 20), (3, 30), (4, 40)], .done) := by decide
+
+/-- `ListTools` drops every tool of the first page (odd keys): the later pages are still yielded. -/
+example : drain 0 (filterOracle (fun f => f.1 % 2 == 0) (pagesOracle [[(1, 10), (3, 30)], [(2, 20), (4, 40)]])) 5
+    (Iter.start 0) = ([(2, 20), (4, 40)], .done) := by decide
+
+/-- Long names as the last entry of non-final pages: their cursors are accepted on the next request. -/
+example : (trav natCodec 1 (List.replicate 3 [])
+    ((FS.empty : FS Nat Nat).add [(7, 70), (123456789012345678901234567890, 1), (123456789012345678901234567891, 2)]) 0).pages
+    = [[(7, 70)], [(123456789012345678901234567890, 1)], [(123456789012345678901234567891, 2)]] := by decide
 
 end Paginate
